@@ -542,7 +542,63 @@ def rule_memo_key_complete_(ctx: Ctx, rep: Report) -> None:
     rule_memo_key_complete(ctx, rep, "C20.memo_key_complete", ('btclib.',))
 
 
+def rule_cache_key_complete(ctx: Ctx, rep: Report) -> None:
+    """C20.cache_key_complete: every curve-keyed memo (`lru_cache` on a function
+    taking a curve, `_libsecp256k1_serves`'s comparison with secp256k1) is stored
+    under `Curve.__eq__` / `__hash__`, i.e. under `_eq_key`: a key that leaves a
+    parameter out -- or takes a part of one, the x of G without its y -- answers
+    one curve with what was cached for another, whichever was asked first
+    (C01.eq_key_complete, reported here for the history clause)."""
+    from rules import C01
+    tmp = Report("C01", rep.tier)
+    tmp.quiet = True
+    C01.rule_eq_key_complete(ctx, tmp)
+    for o in tmp.obs:
+        rep.ob("C20.cache_key_complete", o.instance, o.held, o.site, o.detail)
+    rep.floor("C20.cache_key_complete", 2)
+
+
+def rule_view_hands_out_copies(ctx: Ctx, rep: Report) -> None:
+    """C20.view_hands_out_copies: PsbtView keeps the transaction and the spent
+    outputs it has built once (`_transaction`, `_spent`: methods that store into
+    `self` and answer the stored object) and computes every later sig_hash from
+    them. What a public member answers from such a kept object is a deep copy
+    of it: a shallow one (`Tx(tx.version, ..., tx.vin, tx.vout)`) shares the
+    TxIn / TxOut objects, and `view.tx.vin[0].sequence = 0` then changes every
+    later answer of the view."""
+    rule = "C20.view_hands_out_copies"
+    ci = ctx.cls("btclib.psbt.psbt_view.PsbtView")
+    keepers = set()
+    for name, m in ci.methods.items():
+        stored = {t.attr for a in own_nodes(m.node) if isinstance(a, ast.Assign) for t in a.targets if isinstance(t, ast.Attribute) and isinstance(t.value, ast.Name) and t.value.id == "self"}
+        if name != "__init__" and any(isinstance(r, ast.Return) and isinstance(r.value, ast.Attribute) and isinstance(r.value.value, ast.Name) and r.value.value.id == "self" and r.value.attr in stored
+                                      for r in own_nodes(m.node)):
+            keepers.add(name)
+    rep.ob(rule, "PsbtView:keepers", len(keepers) >= 2, ci.where() if hasattr(ci, "where") else "btclib/psbt/psbt_view.py:1", f"methods answering an object kept in self: {sorted(keepers)}")
+    from rules.sigcommon import MUTABLE_CONTAINERS, _annotation_names
+    n = 0
+    for name, m in sorted(ci.methods.items()):
+        if name.startswith("_"):
+            continue
+        uses = [c for c in own_nodes(m.node) if isinstance(c, ast.Call) and isinstance(c.func, ast.Attribute) and isinstance(c.func.value, ast.Name) and c.func.value.id == "self" and c.func.attr in keepers]
+        if not uses:
+            continue
+        names = _annotation_names(ctx, m.node.returns)
+        mutable = bool(names & MUTABLE_CONTAINERS) or any(nm in ctx.prog.classes or any(q.endswith("." + nm) for q in ctx.prog.classes) for nm in names - {"PrecomputedTxData"})
+        if not mutable:
+            continue
+        for r in own_nodes(m.node):
+            if isinstance(r, ast.Return) and r.value is not None:
+                n += 1
+                ok = isinstance(r.value, ast.Call) and call_name(r.value) == "deepcopy"
+                rep.ob(rule, f"PsbtView.{name}", ok, m.where(r), "answers a deep copy of what the view keeps" if ok else
+                       f"`{norm(r)[:80]}` hands out (parts of) the object the view keeps and computes from: a caller editing the answer changes the view's later answers")
+    rep.floor(rule, 3)
+
+
 RULES = [
+    ("C20.view_hands_out_copies", rule_view_hands_out_copies),
+    ("C20.cache_key_complete", rule_cache_key_complete),
     ("C20.memo_key_complete", rule_memo_key_complete_),
     ("C20.no_stale_cache", rule_no_stale_cache_),
 
